@@ -77,9 +77,185 @@ def lagrange(nx, ny, x):
     return val, der, ev, ed
 
 
+def solve(A, b):
+    """Gaussian elimination with partial pivoting (small dense systems)"""
+    n = len(A)
+    M = [list(A[i]) + [b[i]] for i in range(n)]
+    for c in range(n):
+        p = max(range(c, n), key=lambda r: abs(M[r][c]))
+        if abs(M[p][c]) < 1e-300:
+            raise ZeroDivisionError("singular reference system")
+        M[c], M[p] = M[p], M[c]
+        for r in range(c + 1, n):
+            f = M[r][c] / M[c][c]
+            if f:
+                for k in range(c, n + 1):
+                    M[r][k] -= f * M[c][k]
+    x = [0.0] * n
+    for r in range(n - 1, -1, -1):
+        x[r] = (M[r][n] - sum(M[r][k] * x[k] for k in range(r + 1, n))) / M[r][r]
+    return x
+
+
+def interval(knots, x):
+    """knot interval used for x; the two end intervals also serve everything outside the grid"""
+    j = 0
+    while j + 2 < len(knots) and x >= knots[j + 1]:
+        j += 1
+    return j
+
+
+def cubic_row(knots, x):
+    """coefficients of S(x) in the unknowns u = (f_0..f_{n-1}, f''_0..f''_{n-1}) (textbook form)"""
+    n = len(knots)
+    j = interval(knots, x)
+    h = knots[j + 1] - knots[j]
+    B = (x - knots[j]) / h
+    A = 1 - B
+    row = [0.0] * (2 * n)
+    row[j], row[j + 1] = A, B
+    row[n + j], row[n + j + 1] = (A ** 3 - A) * h * h / 6, (B ** 3 - B) * h * h / 6
+    return row
+
+
+def ref_fit(ty, bc, knots, xs, ys):
+    """reference least-squares spline on the knots: returns a function S(x).
+    linear: piecewise-linear in the knot values; cubic: C2 cubic spline with natural (f''=0 at both ends) or
+    derivativezero (S'=0 at both ends) boundary conditions, solved as an equality-constrained least-squares problem (KKT system)."""
+    n = len(knots)
+    if ty == "linear":
+        rows = []
+        for x in xs:
+            j = interval(knots, x)
+            t = (x - knots[j]) / (knots[j + 1] - knots[j])
+            r = [0.0] * n
+            r[j], r[j + 1] = 1 - t, t
+            rows.append(r)
+        N = [[sum(r[a] * r[b] for r in rows) for b in range(n)] for a in range(n)]
+        c = solve(N, [sum(rows[i][a] * ys[i] for i in range(len(xs))) for a in range(n)])
+
+        def S(x):
+            j = interval(knots, x)
+            t = (x - knots[j]) / (knots[j + 1] - knots[j])
+            return (1 - t) * c[j] + t * c[j + 1]
+        return S
+    rows = [cubic_row(knots, x) for x in xs]
+    cons = []
+    h = [knots[i + 1] - knots[i] for i in range(n - 1)]
+    for i in range(1, n - 1):      # first derivative continuous at the inner knots
+        r = [0.0] * (2 * n)
+        r[n + i - 1], r[n + i], r[n + i + 1] = h[i - 1] / 6, (h[i - 1] + h[i]) / 3, h[i] / 6
+        r[i - 1] -= 1 / h[i - 1]
+        r[i] += 1 / h[i - 1] + 1 / h[i]
+        r[i + 1] -= 1 / h[i]
+        cons.append(r)
+    r0, r1 = [0.0] * (2 * n), [0.0] * (2 * n)
+    if bc == "derivativezero":
+        r0[0], r0[1], r0[n], r0[n + 1] = -1 / h[0], 1 / h[0], -h[0] / 3, -h[0] / 6
+        r1[n - 2], r1[n - 1], r1[2 * n - 2], r1[2 * n - 1] = -1 / h[-1], 1 / h[-1], h[-1] / 6, h[-1] / 3
+    else:
+        r0[n], r1[2 * n - 1] = 1.0, 1.0
+    cons += [r0, r1]
+    m2, nc = 2 * n, len(cons)
+    K = [[0.0] * (m2 + nc) for _ in range(m2 + nc)]
+    rhs = [0.0] * (m2 + nc)
+    for a in range(m2):
+        for b in range(m2):
+            K[a][b] = sum(r[a] * r[b] for r in rows)
+        rhs[a] = sum(rows[i][a] * ys[i] for i in range(len(xs)))
+        for q in range(nc):
+            K[a][m2 + q] = cons[q][a]
+            K[m2 + q][a] = cons[q][a]
+    u = solve(K, rhs)[:m2]
+
+    def S(x):
+        return sum(c * v for c, v in zip(cubic_row(knots, x), u))
+    return S
+
+
+def write_input(x, y, fl, fmt):
+    with open("in.tab", "w") as f:
+        for i in range(len(x)):
+            if fmt == "2":
+                f.write("%s %s\n" % (repr(x[i]), repr(y[i])))
+            elif fmt == "4":
+                f.write("%s %s %s %s\n" % (repr(x[i]), repr(y[i]), repr(0.01 * (i + 1)), fl[i]))
+            else:
+                f.write("%s %s %s\n" % (repr(x[i]), repr(y[i]), fl[i]))
+
+
+def run_exe(m, x, y):
+    """one csg_resample run for the options in m; returns (rc, text, out rows or None, der rows or None, raw out text)"""
+    write_input(x, y, m["fl"], m.get("fmt", "3"))
+    for p in ("out.tab", "der.tab"):
+        if os.path.exists(p):
+            os.remove(p)
+    cmd = [EXE, "--in", "in.tab", "--out", "out.tab", "--grid", m["grid"], "--type", m["ty"]]
+    if m.get("deriv", "1") == "1":
+        cmd += ["--derivative", "der.tab"]
+    if m["bc"] != "natural" or m.get("bo") == "1":
+        cmd += ["--boundaries", m["bc"]]
+    if m.get("fit", "none") != "none":
+        cmd += ["--fitgrid", m["fit"]]
+    if m.get("nocut") == "1":
+        cmd += ["--nocut"]
+    if m.get("cm") == "1":
+        cmd += ["--comment", "verif C12 comment"]
+    r = subprocess.run(cmd, stdout=subprocess.PIPE, stderr=subprocess.STDOUT, timeout=120)
+    text = r.stdout.decode(errors="replace")
+    out = read_table("out.tab") if r.returncode == 0 and os.path.exists("out.tab") else None
+    der = read_table("der.tab") if r.returncode == 0 and os.path.exists("der.tab") else None
+    raw = open("out.tab").read() if out is not None else ""
+    return r.returncode, text, out, der, raw
+
+
+def selected_rows(m, x):
+    """indices of the input rows that take part in a fit: all with --nocut, else those inside [fitgrid min, fitgrid max]"""
+    fmin, fstep, fmax, fnn = grid_pts(m["fit"])
+    if m.get("nocut") == "1":
+        return list(range(len(x)))
+    return [i for i in range(len(x)) if fmin <= x[i] <= fmax]
+
+
+def run_sens(m):
+    """which input rows does the output depend on?  base run + one run per row with y_i + 1"""
+    ty, bc = m["ty"], m["bc"]
+    x, y = vec(m["x"]), vec(m["y"])
+    fit = m.get("fit", "none")
+    K = "resample-%s-%s-%s-" % (ty, bc, ("fit-nocut" if m.get("nocut") == "1" else "fit") if fit != "none" else "interp")
+    fails, checks = [], 0
+    rc, text, base, _, _ = run_exe(m, x, y)
+    if base is None:
+        return [(K + "error", "csg_resample rc=%s: %s" % (rc, text[-300:].replace("\n", " | ")))], [], 0, ""
+    part = set(selected_rows(m, x)) if fit != "none" else set(range(len(x)))
+    pattern = ""
+    for i in range(len(x)):
+        y2 = list(y)
+        y2[i] += 1.0
+        rc, text, o2, _, _ = run_exe(m, x, y2)
+        checks += 1
+        if o2 is None or len(o2) != len(base):
+            fails.append((K + "error", "csg_resample failed after changing row %d: rc=%s" % (i, rc)))
+            break
+        d = max(abs(a[1] - b[1]) for a, b in zip(base, o2))
+        pattern += "x" if d > 0 else "."
+        where = "first" if i == 0 else ("last" if i == len(x) - 1 else "inner")
+        if i in part and not d > 1e-6:
+            key = K + "%s-row-has-no-effect" % where
+            if key not in [f[0] for f in fails]:
+                fails.append((key, "row %d (x=%r) takes part in the %s but adding 1 to its y changes the output by only %g" % (i, x[i], "fit" if fit != "none" else "interpolation", d)))
+        if i not in part and d > 1e-12:
+            key = K + "excluded-%s-row-has-effect" % where
+            if key not in [f[0] for f in fails]:
+                fails.append((key, "row %d (x=%r) lies outside the fit grid %s and --nocut is not given, but adding 1 to its y changes the output by %g" % (i, x[i], fit, d)))
+    return fails, [("sens", ty, bc, fit, m.get("nocut"), pattern)], checks, "rows the output depends on: " + pattern
+
+
 def run_case(cas):
     """returns (fails [(key, what)], classes, nchecks, sample)"""
     m = dict(p.split("=", 1) for p in cas.split(";"))
+    if m.get("k") == "sens":
+        return run_sens(m)
     ty, bc = m["ty"], m["bc"]
     x, y, fl = vec(m["x"]), vec(m["y"]), m["fl"]
     fit = m.get("fit", "none")
@@ -92,26 +268,23 @@ def run_case(cas):
         if key not in [f[0] for f in fails]:
             fails.append((key, what))
 
-    with open("in.tab", "w") as f:
-        for i in range(len(x)):
-            f.write("%s %s %s\n" % (repr(x[i]), repr(y[i]), fl[i]))
-    for p in ("out.tab", "der.tab"):
-        if os.path.exists(p):
-            os.remove(p)
-    cmd = [EXE, "--in", "in.tab", "--out", "out.tab", "--derivative", "der.tab", "--grid", m["grid"], "--type", ty]
-    if bc == "periodic":
-        cmd += ["--boundaries", "periodic"]
-    if fit != "none":
-        cmd += ["--fitgrid", fit]
-    if m.get("nocut") == "1":
-        cmd += ["--nocut"]
-    if m.get("cm") == "1":
-        cmd += ["--comment", "verif C12 comment"]
-    r = subprocess.run(cmd, stdout=subprocess.PIPE, stderr=subprocess.STDOUT, timeout=120)
-    if r.returncode != 0 or not os.path.exists("out.tab") or not os.path.exists("der.tab"):
-        fail(K + "error", "csg_resample rc=%s: %s" % (r.returncode, r.stdout.decode(errors="replace")[-300:].replace("\n", " | ")))
+    want_der = m.get("deriv", "1") == "1"
+    rc, text, out, der, raw = run_exe(m, x, y)
+    # combinations the code documents as not implemented: Akima fits; derivative-zero boundaries for cubic / Akima interpolation
+    notimpl = (ty == "akima" and fit != "none") or (bc == "derivativezero" and fit == "none" and ty in ("cubic", "akima"))
+    if notimpl and rc != 0 and "not implemented" in text:
+        return fails, [("not-implemented", ty, bc, fit != "none")], 1, "refused: not implemented"
+    if rc != 0 or out is None or (want_der and der is None):
+        fail(K + "error", "csg_resample rc=%s: %s" % (rc, text[-300:].replace("\n", " | ")))
         return fails, classes, checks, ""
-    out, der = read_table("out.tab"), read_table("der.tab")
+    if der is None:
+        der = [(r[0], 0.0, r[2]) for r in out]   # no derivative file requested: the derivative oracle is skipped below
+    if m.get("fmt") == "2":
+        fl = "i" * len(x)                        # a table without flag column reads as all 'i'
+    has_comment = any(l.startswith("#") and "verif C12 comment" in l for l in raw.splitlines())
+    checks += 1
+    if (m.get("cm") == "1") != has_comment:
+        fail(K + "comment", "--comment %s but the output %s the comment line" % ("given" if m.get("cm") == "1" else "not given", "has" if has_comment else "lacks"))
     gmin, gstep, gmax, gn = grid_pts(m["grid"])
     ymax = 1 + max(abs(v) for v in y)
     # D: output grid
@@ -146,8 +319,22 @@ def run_case(cas):
             checks += 1
             if abs(yo - s * abs(xo - c)) > 4 * PREC * (1 + abs(s) * (1 + abs(xo))) + 1e-8:
                 fail(K + "spline-space-data-not-reproduced", "data %r*|x-%r| (kink on a fit knot): output at x=%r is %r" % (s, c, xo, yo))
+    # F: a fit equals the reference least-squares spline on exactly the rows the options select
+    if fit != "none" and (ty == "linear" or (ty == "cubic" and bc in ("natural", "derivativezero"))):
+        fmin, fstep, fmax, fnn = grid_pts(fit)
+        fk = [fmin + k * fstep for k in range(fnn - 1)] + [fmax]
+        rows = selected_rows(m, x)
+        S = ref_fit(ty, bc, fk, [x[i] for i in rows], [y[i] for i in rows])
+        for (xo, yo, _) in out:
+            checks += 1
+            ref = S(xo)
+            if abs(yo - ref) > 1e-7 * ymax:
+                fail(K + ("nocut-" if m.get("nocut") == "1" else "") + "not-the-least-squares-fit-of-the-selected-rows",
+                     "output at x=%r is %r but the least-squares %s spline on rows %d..%d (%s) gives %r" % (xo, yo, ty, rows[0], rows[-1], "--nocut: all rows" if m.get("nocut") == "1" else "rows inside the fit grid", ref))
     # B: derivative file vs derivative of the value file
-    if fit == "none":
+    if not want_der:
+        knots = []
+    elif fit == "none":
         knots = list(x)
     else:
         fmin, fstep, fmax, fnn = grid_pts(fit)
@@ -175,6 +362,12 @@ def run_case(cas):
     for i in range(len(out)):
         if not cand[i]:
             continue
+        if deg == 1:
+            # a piecewise-linear spline has two slopes at an inner knot and either may be reported: the check needs the
+            # polynomial of BOTH adjacent knot intervals; skip the point when the output grid does not cover one of them
+            kk = [k for k in range(len(knots)) if abs(out[i][0] - knots[k]) < 1e-9]
+            if kk and 0 < kk[0] < len(knots) - 1 and len(cand[i]) < 2:
+                continue
         checks += 1
         if not any(abs(der[i][1] - d) <= tol for d, tol in cand[i]):
             fail(K + "derivative-output-mismatch", "derivative output at x=%r is %r but the derivative of the value output there is %s"
@@ -244,9 +437,54 @@ def all_cases(thorough):
                     for bc in (("natural", "periodic") if ty == "cubic" and not extra else ("natural",)):
                         for nocut in ("0", "1"):
                             C.append("ty=%s;bc=%s;x=%s;y=%s;fl=%s;grid=%s;fit=%s;nocut=%s%s" % (ty, bc, x_s, ",".join(H(v) for v in yv), "i" * nn, o, fg, nocut, ";" + extra if extra else ""))
+    # ---- every option and all their combinations (full product, hence every pair) on one table with rows on both sides of the fit grid
+    def opt_product(xs, ys, grid, fitg):
+        n = len(xs)
+        x_s, y_s = ",".join(H(v) for v in xs), ",".join(H(v) for v in ys)
+        for ty in ("akima", "cubic", "linear"):
+            for fit in ("none", fitg):
+                for nocut in ("0", "1"):
+                    for cm in ("0", "1"):
+                        for (bc, bo) in (("natural", "0"), ("natural", "1"), ("periodic", "0"), ("derivativezero", "0")):
+                            for deriv in ("1", "0"):
+                                for fmt in ("3", "2", "4"):
+                                    C.append("k=opt;ty=%s;bc=%s;bo=%s;x=%s;y=%s;fl=%s;grid=%s;fit=%s;nocut=%s;cm=%s;deriv=%s;fmt=%s"
+                                             % (ty, bc, bo, x_s, y_s, ("iou" * n)[:n], grid, fit, nocut, cm, deriv, fmt))
+    AL = [0.0, 1.0, -1.0, 2.0]
+    xo = [-0.25 + 0.125 * k for k in range(21)]
+    yo = [0.5 * AL[(3 * k + k // 4) % 4] + 0.3 * v * v for k, v in enumerate(xo)]
+    yo[-1] = yo[0]
+    opt_product(xo, yo, "0.0:0.125:2.0", "0.0:0.5:2.0")
+    # ---- which rows does the output depend on (one extra run per row): fits with and without --nocut, rows inside / outside / on the edge of the fit grid
+    def sens(ty, bc, xs, ys, grid, fit, nocut):
+        n = len(xs)
+        C.append("k=sens;ty=%s;bc=%s;x=%s;y=%s;fl=%s;grid=%s;fit=%s;nocut=%s" % (ty, bc, ",".join(H(v) for v in xs), ",".join(H(v) for v in ys), "i" * n, grid, fit, nocut))
+    sets = [([0.125 * k for k in range(17)], "0.0:0.125:2.0", "0.0:0.5:2.0"),           # all rows inside, first row on the fit-grid minimum
+            (xo, "0.0:0.125:2.0", "0.0:0.5:2.0"),                                      # two rows beyond each end
+            ([0.25 * k for k in range(13)], "0.5:0.125:2.5", "0.5:0.5:2.5")]           # two rows beyond each end, other step
+    if thorough:
+        sets += [([0.125 * k for k in range(25)], "0.0:0.25:3.0", "0.0:1.0:3.0"), ([-1.5 + 0.0625 * k for k in range(33)], "-1.5:0.0625:0.5", "-1.5:0.5:0.5"),
+                 ([0.1 * k for k in range(21)], "0.5:0.05:1.5", "0.5:0.25:1.5")]
+    for (xs, grid, fitg) in sets:
+        ys = [0.5 * AL[(3 * k + k // 4) % 4] + 0.3 * v * v for k, v in enumerate(xs)]
+        ys[-1] = ys[0]
+        for (ty, bc) in (("cubic", "natural"), ("cubic", "periodic"), ("cubic", "derivativezero"), ("linear", "natural")):
+            for nocut in ("0", "1"):
+                sens(ty, bc, xs, ys, grid, fitg, nocut)
+    x9 = [0.25 * k for k in range(9)]
+    y9 = [AL[(3 * k + k // 4) % 4] for k in range(9)]
+    for ty in ("akima", "cubic", "linear"):
+        sens(ty, "natural", x9, y9, "0.0:0.125:2.0", "none", "0")
     if not thorough:
         return C
     # ------------------------------------------------------------ THOROUGH ONLY (appended; the runs above are unchanged)
+    xn = [0.0]
+    while xn[-1] < 3.0:
+        xn.append(xn[-1] + [0.0625, 0.125, 0.1875][len(xn) % 3])
+    xn = [-0.375, -0.125] + [v for v in xn if v <= 3.0] + [3.125, 3.5]
+    yn = [0.5 * AL[(k + k // 3) % 4] - 0.2 * v for k, v in enumerate(xn)]
+    yn[-1] = yn[0]
+    opt_product(xn, yn, "0.0:0.25:3.0", "0.0:1.0:3.0")
     def interp_case(ty, bc, g, yv, fl, o, extra=""):
         return "ty=%s;bc=%s;x=%s;y=%s;fl=%s;grid=%s%s" % (ty, bc, ",".join(H(v) for v in g), ",".join(H(v) for v in yv), fl, o, ";" + extra if extra else "")
 
@@ -348,7 +586,11 @@ def main():
     R.rule = ("csg_resample runs: 6 input grids (uniform, non-uniform, shifted, decimal step 0.1, 4..6 points, one with 101 points) x ordinates (a straight line, 3 vectors over {-1,0,1,2}, "
               "one periodic vector) x type akima/cubic/linear x boundaries natural/periodic x output grid {same, finer, coarser, offset, range not a multiple of the step}, "
               "all 27 flag patterns over {i,o,u}^3 on the first three points; fits on 3 fit grids x {line, hat, parabola, alphabet pattern} data x 3 output grids x "
-              "cut/--nocut; --derivative always written. distinct_nontrivial = distinct (type, boundary, first output rows, flags)")
+              "cut/--nocut; --derivative always written. OPTIONS: the full product of --type x {interpolation, --fitgrid} x --nocut x --comment x --boundaries {absent, natural, periodic, "
+              "derivativezero} x --derivative {given, absent} x input format {x y, x y flag, x y err flag} (1152 runs) on a 21-row table with two rows beyond each end of the "
+              "fit grid: fits (linear; cubic natural/derivativezero) must equal a reference least-squares spline (KKT solve) on exactly the selected rows (--nocut: all, else "
+              "fitgrid min <= x <= max), comment line present iff requested, documented not-implemented combinations may refuse. SENSITIVITY: per fit configuration one extra "
+              "run per input row with y+1: the output changes iff the row is selected. distinct_nontrivial = distinct (type, boundary, first output rows, flags)")
     if a.tier == "thorough":
         R.rule += (" || THOROUGH additionally: input grids with spacings {0.25,0.75,1.5,3} (8 points), 21 points step 0.05, 12 points step 1; all 27 flag patterns on "
                    "every output grid of every input grid, all 81 patterns over {i,o,u}^4 on G1; ordinates {-2,0,0.5,3}, x1000 and x0.001; 3 periodic data sets; --comment; "
@@ -362,7 +604,7 @@ def main():
         fails, classes, checks, sample = run_case(cas)
         R.eval()
         R.count("comparisons", checks)
-        R.count("fit_runs" if ";fit=" in cas else "interpolation_runs")
+        R.count("sensitivity_cases" if cas.startswith("k=sens") else "option_product_runs" if cas.startswith("k=opt") else "fit_runs" if ";fit=" in cas else "interpolation_runs")
         for k, w in fails:
             R.fail(k, w + "  [" + cas + "]", cas)
         for c in classes:
